@@ -126,8 +126,11 @@ class Ctx:
         ev = {'property_id': self.pid, 'tier': self.tier, 'seed': self.seed, 'level': self.level,
               'coverage': cov, 'assumptions': self.assumptions, 'wall_s': round(wall, 2),
               'violations': len(self.violations)}
-        os.makedirs(os.path.join(VERIF, 'evidence'), exist_ok=True)
-        p = os.path.join(VERIF, 'evidence', self.pid + '.json')
+        # evidence describes runs against /repo itself; runs against a scratch copy (VERIF_REPO, used to try
+        # seeded changes) must not overwrite it
+        edir = 'evidence' if os.environ.get('VERIF_REPO', '/repo') == '/repo' else os.path.join('build', 'scratch-evidence')
+        os.makedirs(os.path.join(VERIF, edir), exist_ok=True)
+        p = os.path.join(VERIF, edir, self.pid + '.json')
         tmp = p + '.tmp'
         json.dump(ev, open(tmp, 'w'), indent=1, default=str)
         os.replace(tmp, p)
